@@ -19,12 +19,12 @@ theorem new_ok (A : View α)   : new A  = .ok (s0 A ) := by
 
 @[simp] def abs (A : View α) (s : State α A.σ) : A.σ × DrawdownState α := (s.view, { maxDD := s.max_drawdown, peak := s.peak, minAfterPeak := s.min_after_peak })
 
-theorem upd_eq (A : View α) (s : State α A.σ) (x : α)  :
+theorem upd_eq (A : View α)  (s : State α A.σ) (x : α)  :
     (update A s x).map (abs A) = (wrap A drawdownCore).upd (abs A s) x := by
   simp only [update, wrap, mapV, binop, drawdownCore, abs]; gen_tie
 theorem upd_cfg (A : View α) (s s' : State α A.σ) (x : α) : update A s x = .ok s' → True := by
   simp only [update, drawdownCore]; gen_tie
-theorem last_eq (A : View α) (s : State α A.σ)  : last A s = (wrap A drawdownCore).last (abs A s) := by
+theorem last_eq (A : View α)  (s : State α A.σ)  : last A s = (wrap A drawdownCore).last (abs A s) := by
   simp only [last, wrap, mapV, binop, drawdownCore, abs]; gen_tie
 
 def sim (A : View α)   : Sim (mkView (s0 A ) (update A) (last A)) (wrap A drawdownCore) where
